@@ -115,12 +115,30 @@ static void writer_phase(rng_t *r, const char *path, int threaded, int big) {
             d.signal_type = rng_chance(r, 9, 10) ? (uint8_t) rng_below(r, 2) : (uint8_t) rng_below(r, 256);
             d.data_type = rng_chance(r, 9, 10) ? DTYPES[rng_below(r, 15)].code : (rng_chance(r, 1, 2) ? (uint32_t) rng_u64(r) : (DTYPES[rng_below(r, 15)].code | (uint32_t) (rng_below(r, 40) << 16)));
             d.sample_rate = rng_chance(r, 4, 5) ? 1000 : pick_u32(r);
-            int extreme = rng_chance(r, 1, 4);
+            int extreme = rng_chance(r, 1, 4), hugeblock = 0;
             d.samples_per_data = extreme ? pick_u32(r) : (uint32_t) rng_below(r, 300);
             d.sample_decimate_factor = extreme ? pick_u32(r) : (uint32_t) rng_below(r, 100);
             if (!extreme && rng_chance(r, 1, 6)) { static const uint32_t mid[] = {2700, 5000, 20000, 70000}; d.sample_decimate_factor = RNG_PICK(r, mid); d.samples_per_data = d.sample_decimate_factor * (uint32_t) rng_range(r, 1, 3); }   /* statistics over > 65536 samples are then served from raw samples */
+            if (rng_chance(r, 1, 14)) {
+                /* data blocks of 256 MiB .. 1 GiB: accepted or rejected, the bit count of such a block does not fit 32 bits from 512 MiB on.
+                 * 8-bit and wider types only (the writer also keeps one double per sample of a block). */
+                static const uint32_t wide[] = {JLS_DATATYPE_F64, JLS_DATATYPE_U64, JLS_DATATYPE_I32, JLS_DATATYPE_F32, JLS_DATATYPE_U16, JLS_DATATYPE_U8, JLS_DATATYPE_I24};
+                d.data_type = RNG_PICK(r, wide);
+                d.signal_type = JLS_SIGNAL_TYPE_FSR;
+                uint64_t bits = (d.data_type >> 8) & 0xff;
+                static const uint64_t blockbits[] = {1ULL << 32, (1ULL << 32) + 4096, (1ULL << 32) - 4096, 1ULL << 31, 3ULL << 31, (1ULL << 33) - 8192, 1ULL << 33};
+                uint64_t bb = RNG_PICK(r, blockbits);
+                d.samples_per_data = (uint32_t) (bb / bits);
+                d.sample_decimate_factor = 4096;
+                extreme = 0;
+                hugeblock = 1;
+            }
             d.entries_per_summary = extreme ? pick_u32(r) : (uint32_t) rng_below(r, 200);
             d.summary_decimate_factor = extreme ? pick_u32(r) : (uint32_t) rng_below(r, 50);
+            if (hugeblock) {   /* a summary chunk that holds a whole block's entries, or the block is cut down to the summary chunk */
+                d.entries_per_summary = (d.samples_per_data / 4096 + 1) * (uint32_t) rng_range(r, 1, 2);
+                d.summary_decimate_factor = 16;
+            }
             d.annotation_decimate_factor = rng_chance(r, 1, 3) ? pick_u32(r) : (uint32_t) rng_below(r, 20);
             d.utc_decimate_factor = rng_chance(r, 1, 3) ? pick_u32(r) : (uint32_t) rng_below(r, 20);
             if (!big) { if (d.annotation_decimate_factor > 100000) d.annotation_decimate_factor = 70000; if (d.utc_decimate_factor > 100000) d.utc_decimate_factor = 70000; }
